@@ -22,7 +22,7 @@ var vEnvSession *Session
 var vEnvSteps int
 
 func vStubTreeLenEnv(t *segmentTree) int {
-	n := vTrees[t.tr].n
+	n := vModelOf(t).n
 	if vEnvSession != nil && t == vEnvSession.recvQueue && vEnvSteps < 1 {
 		vEnvSteps++
 		s := vEnvSession
@@ -53,7 +53,7 @@ func vH_C03_read_eof_means_drained() {
 	n, err := s.Read(b)
 	if err == io.EOF {
 		vAssert(n == 0, "EOF carries no data")
-		vAssert(vTrees[s.recvQueue.tr].n == 0 && len(s.unreadBuf) == 0, "io.EOF is returned only when nothing is left to read")
+		vAssert(vModelOf(s.recvQueue).n == 0 && len(s.unreadBuf) == 0, "io.EOF is returned only when nothing is left to read")
 	}
 }
 
